@@ -7,6 +7,7 @@ import (
 	"path/filepath"
 	"strings"
 
+	blocks "github.com/ipfs/go-block-format"
 	"github.com/ipfs/go-cid"
 	"github.com/ipld/go-car/v2/blockstore"
 	"github.com/ipld/go-car/v2/storage"
@@ -159,6 +160,34 @@ func c06RunSession(front, path string, o drv.Opts, ops []string) (*c06Sess, erro
 			}
 			continue
 		}
+		if strings.HasPrefix(op, "many:") {
+			// one PutMany call: all its blocks are acknowledged only when the call returns
+			bl := kit.Bs(strings.Split(strings.TrimPrefix(op, "many:"), ","))
+			call := tr.Call
+			var err error
+			if s.bs != nil {
+				var l []blocks.Block
+				for _, b := range bl {
+					l = append(l, b.Block())
+				}
+				err = s.bs.PutMany(drv.Ctx, l)
+			} else {
+				for _, b := range bl {
+					if err = s.Put(b); err != nil {
+						break
+					}
+				}
+			}
+			tr.EndCall()
+			se.labels = append(se.labels, "put")
+			if err != nil {
+				return se, fmt.Errorf("%s: %w", op, err)
+			}
+			for _, b := range bl {
+				se.puts = append(se.puts, c06Put{b, call})
+			}
+			continue
+		}
 		b := kit.B(strings.TrimPrefix(op, "put:"))
 		call := tr.Call
 		err := s.Put(b)
@@ -190,7 +219,7 @@ func c06Class(se *c06Sess, i, t int) string {
 	} else {
 		switch call {
 		case "put":
-			part = []string{"varint", "cid", "data"}[min(ord, 2)]
+			part = []string{"varint", "cid", "data"}[ord%3]
 		case "open":
 			if r.Synthetic {
 				part = "pragma"
@@ -463,6 +492,9 @@ func runC06(c any, x *kit.Ctx) {
 				if strings.HasPrefix(op, "put:") {
 					inflight = append(inflight, kit.B(strings.TrimPrefix(op, "put:")))
 				}
+				if strings.HasPrefix(op, "many:") {
+					inflight = append(inflight, kit.Bs(strings.Split(strings.TrimPrefix(op, "many:"), ","))...)
+				}
 			}
 		}
 		class := "end"
@@ -502,6 +534,7 @@ func genC06(tier string, emit func(any)) {
 	sessions := [][]string{
 		{}, {"F"}, {"put:a"}, {"put:a", "F"}, {"put:a", "put:b"}, {"put:a", "put:b", "F"}, {"put:e", "put:a", "F"},
 		{"put:L300", "F"}, {"put:a", "put:L300", "F"}, {"put:L70000", "put:a", "F"}, {"put:a", "put:a", "put:b", "F"},
+		{"many:a,b", "F"}, {"put:e", "many:a,b,L300"}, {"many:a,a,b", "put:a'", "F"},
 	}
 	// a session whose index is larger than the section length that the index bytes themselves
 	// spell when misread as a section (0x0400/0x0401 as a varint = 1024/1025)
